@@ -144,12 +144,7 @@ Definition prov4 (slot : nat) (isreq : bool) (r : option (nat * bool)) (m : im) 
     | Some sl' => if Nat.eqb sl' slot then reply m else (None, m)
     | None => reply (mkIm (jms m) (Some (id, hp)) (jpv6 m) (jm4 m) (jm6 m) (jmq m) (jmo m) ((id, slot) :: jby4 m))
     end
-  | None =>
-    if isreq then (None, m)                                      (* no lease for the requested (zero) address *)
-    else match jpv4 m with
-         | Some (id', _) => (Some id', iemit slot IOffer m)        (* existing lease is offered again *)
-         | None => (None, m)
-         end
+  | None => (None, m)      (* since d5fadd1 (handleResolvedV4) an unresolved DISCOVER / REQUEST is not handed to the provider *)
   end.
 
 (* dhcpv4.go handleAck *)
@@ -176,7 +171,8 @@ Definition prov6 (slot : nat) (isreq : bool) (r : option (nat * bool)) (m : im) 
     let pv := if keep then jpv6 m else Some (id, o, hp) in
     let m1 := mkIm (jms m) (jpv4 m) pv (jm4 m) (jm6 m) (jmq m) (jmo m) (jby4 m) in
     if isreq then handle_reply6 slot id (iemit slot IReply m1) else iemit slot IAdv m1
-  | None => iemit slot IExh6 m
+  | None => m              (* since d5fadd1 (handleResolvedV6): no resolved binding, no answer (the provider no longer
+                              allocates on its own outside the registry) *)
   end.
 
 Definition fwd_discover (slot : nat) (m : im) : im := let '(r, m1) := resolve4 slot m in snd (prov4 slot false r m1).
